@@ -31,4 +31,7 @@ PROPS = {
     "C04": hist("^TestC04", "histories with replays of earlier accepted/rejected byte strings, nonces n-1..n+2 and both chain ids, restarts in between; oracle: per-sender nonce model (accepted => nonce == last+1 and chain id matches; bytes accepted once are never accepted again; GetNonce follows the model; rejected => nonce unchanged); non-trivial = history containing a replay of accepted bytes or an out-of-order nonce", qchecks=500, tchecks=3000),
     "C06": hist("^TestC06", "swap/fee-weighted histories; before every DeliverTx the same bytes run through the node's executor in check mode on CurrentState (fresh mempool map, min gas price 1); oracle: (check code == 0) == (deliver code == 0), gas price 0 excluded; non-trivial = a tx that got past signature and nonce checks", qchecks=400, tchecks=2500),
     "C26": hist("^TestC26", "histories delivering identical byte strings 2+ times (same block, later blocks, after restarts, redeem-check included); oracle: payer gas-coin balance read around every delivery, any delivery after the first must be rejected and free; redelivery after a Run-rejected first delivery is the known finding S2 (excluded and counted); non-trivial = a redelivery that is not the known finding", qchecks=500, tchecks=3000),
+    "C13": hist("^TestC13", "(a) pure: operation sequences (create/mint/burn/sell/buy with orders/add+remove order/commit+reload) on a SwapV2 over an in-memory IAVL tree with an independent big.Int accounting model; (b) histories with swap-weighted profile: pool reserves read around every DeliverTx; oracle: reserve product never decreases except by removing liquidity (then at most the proportional share leaves), reserves stay positive, per-coin value conservation of every trade, LP lock at the zero address >= 1000 and never decreases; non-trivial = trade with active rounding or crossing an order / history with pool trades", qchecks=300, tchecks=2500),
+    "C21": hist("^TestC21", "check-heavy histories: checks over every coin/gas coin, nonce lengths 0..17, due blocks around the current height, both chain ids, proofs for the right/wrong address or password, wrong gas coin, gas price 2, repeated redemption (same block, later, after restart); oracle: accepted => (hash unused, height <= due, chain ids match, proof verifies for the sender under the lock key, gas coin matches, gas price 1) and exact balance effects (issuer -value -fee, redeemer +value, fee never from the redeemer), hash recorded and exported as used; non-trivial = a second attempt on a redeemed check or an attempt failing exactly one condition", qchecks=400, tchecks=2500),
+    "C22": hist("^TestC22", "coin-registry-weighted histories (create/recreate coin and token, owner changes, mint/burn at max-supply boundaries, pool creation); oracle on every export: (symbol,version) unique, exactly one version-0 coin per ticker, no coin disappears, ids never change ticker, new ids above all ids issued earlier in the run, volume <= max supply, LP volume grows only in blocks with accepted pool-create/add-liquidity; accepted recreate/owner-change/mint => sender is the pre-state ticker owner; non-trivial = history with a recreate, an owner change or >= 3 creations", qchecks=400, tchecks=2500),
 }
